@@ -312,6 +312,9 @@ def check(P, rep):
         # short, of an unknown type, not a canonical ABI encoding (the library's own Err) or because the amount does not fit: any other
         # input-dependent refusal (e.g. a business rule such as amount > 0 mirrored into the codec) rejects encodings of valid messages
         def expected_refusal(c_):
+            if c_[0] in ('is', 'isnot', 'isnot_any'):
+                # dispatch on the decoded type word: an unknown / unsupported message type
+                return find(c_[2], lambda s_: s_[0] == 'call' and 'abi::MessageType as alloy_sol_types::SolValue>::abi_decode' in s_[1]) is not None
             n_ = negate(c_)       # the condition under which decoding goes on
             if n_[0] == 'cmp' and n_[1] == 'le' and const_int(core(n_[2])) == 32 and core(n_[3])[0] == 'call' and core(n_[3])[1].endswith('[u8]>::len'):
                 return True       # too short for the type word
